@@ -19,6 +19,7 @@ OCT = set(b'01234567')
 DIG = set(b'0123456789')
 HEX = set(b'0123456789abcdefABCDEF')
 SPACE = set(b' \t\n\v\f\r')
+CR_IS_BLANK = False      # a carriage return between tokens: unspecified by default (the statements are silent), white space on request
 
 
 class LexResult:
@@ -89,6 +90,9 @@ def lex(data, env=None):
                 i += 1
                 continue
             if c == 0x0D:
+                if CR_IS_BLANK:
+                    i += 1          # a check that only needs the line count (C06: "every newline once") reads CR LF line ends this way
+                    continue
                 raise _Unspec('carriage return')
             if c == 0x23 or (c == 0x2F and data[i + 1:i + 2] == b'/'):   # '#' or '//'
                 j = data.find(b'\n', i)
